@@ -176,3 +176,97 @@ class IsParent(Contract):
 
 
 ALL = [MatchExcluded(), IsExcluded(), PrependBase(), LExists(), MatchLiteral(), IsThis(), IsParent()]
+
+
+class WcMatchInit(Contract):
+    """WcMatch.__init__: limit stored as given (0 stays 0), run state initialised, both patterns must have the type of the root,
+    missing patterns become the empty pattern OF THE ROOT'S TYPE, on_init runs before the patterns are compiled."""
+    module, qual, props = 'wcmatch', 'WcMatch.__init__', ('C11', 'C14', 'C15', 'C18')
+    allowed_raises = ('TypeError',)
+    assumptions = ('_norm_slash / _parse_flags / _add_sep / _get_cwd / on_init / _compile are abstract here (own contracts or the harness)',)
+
+    def inputs(self):
+        self.root_bytes = z3.Bool('root_dir_is_bytes')
+        self.fp_none, self.fp_bytes = z3.Bool('file_pattern_is_None'), z3.Bool('file_pattern_is_bytes')
+        self.ep_none, self.ep_bytes = z3.Bool('exclude_pattern_is_None'), z3.Bool('exclude_pattern_is_bytes')
+        self.L = z3.Int('limit')
+        params = dict(self=selfobj(), root_dir=ObjV(z3.Const('root_dir', Obj)),
+                      file_pattern=V('opt', None, isnone=self.fp_none, inner=ObjV(z3.Const('file_pattern', Obj))),
+                      exclude_pattern=V('opt', None, isnone=self.ep_none, inner=ObjV(z3.Const('exclude_pattern', Obj))),
+                      flags=pyvc.Flags(z3.BitVec('flags', pyvc.BV)), limit=Int(self.L), kwargs=ObjV(z3.Const('kwargs', Obj)))
+        return dict(params=params, fields={}, pre=[], ghost={'$order': []})
+
+    @property
+    def hooks(self):
+        me = self
+
+        def h_isinstance(eng, node, st, args):
+            what, cls = eng.dotted(node.args[0]), eng.dotted(node.args[1])
+            if cls != 'bytes':
+                raise pyvc.Unsupported(f'isinstance(_, {cls})')
+            if what == 'root_dir':
+                return Bool(me.root_bytes)
+            v = st.env.get(what)
+            if v is not None:
+                if v.kind == 'opt':
+                    v = v.a['inner']          # isinstance is asked under `is not None`
+                t = pyvc.to_obj(v)
+                if t.eq(z3.Const('file_pattern', Obj)):
+                    return Bool(me.fp_bytes)
+                if t.eq(z3.Const('exclude_pattern', Obj)):
+                    return Bool(me.ep_bytes)
+            raise pyvc.Unsupported(f'isinstance({what}, bytes)')
+
+        def opaque(name):
+            def h(eng, node, st, args):
+                st.ghost['$order'] = st.ghost['$order'] + [(name, list(args))]
+                return U('call.' + name, *args) if args else ObjV(z3.Const('call.' + name, Obj))
+            return h
+
+        def h_fsencode(eng, node, st, args):
+            return U('fsencode', *args)
+        return {'isinstance': h_isinstance, 'self._norm_slash': opaque('_norm_slash'), 'self._parse_flags': opaque('_parse_flags'), 'self._add_sep': opaque('_add_sep'),
+                'self._get_cwd': opaque('_get_cwd'), 'self.on_init': opaque('on_init'), 'self._compile': opaque('_compile'), 'os.fsencode': h_fsencode,
+                'os.sep': lambda eng, node, st, args: pyvc.Str('/')}
+
+    @property
+    def invariants(self):
+        return {1: ('(file_pattern, exclude_pattern)', lambda st, k: z3.BoolVal(True))}
+
+    @property
+    def ensures(self):
+        me = self
+
+        def types_agree(c):
+            return z3.And(z3.Or(me.fp_none, me.fp_bytes == me.root_bytes), z3.Or(me.ep_none, me.ep_bytes == me.root_bytes))
+
+        def state(c):
+            f = c.st.fields
+            need = ('limit', '_abort', '_skipped', 'pattern_file', 'pattern_folder_exclude', 'file_check', 'folder_exclude_check')
+            if any(k not in f for k in need):
+                return z3.BoolVal(False)
+            empty = pyvc.Engine.ite(None, me.root_bytes, U('fsencode', pyvc.Str('')), pyvc.Str(''))
+            return z3.And(pyvc.eq(f['limit'], Int(me.L)), z3.Not(pyvc.truthy(f['_abort'])), pyvc.eq(f['_skipped'], Int(0)),
+                          pyvc.eq(f['pattern_file'], pyvc.Engine.ite(None, me.fp_none, empty, c.p['file_pattern'].a['inner'])),
+                          pyvc.eq(f['pattern_folder_exclude'], pyvc.Engine.ite(None, me.ep_none, empty, c.p['exclude_pattern'].a['inner'])),
+                          pyvc.eq(f['file_check'], NONE), pyvc.eq(f['folder_exclude_check'], NONE))
+
+        def order(c):
+            names = [n for n, _ in c.st.ghost['$order']]
+            if 'on_init' not in names or '_compile' not in names or names.index('on_init') > names.index('_compile') or names.count('_compile') != 1:
+                return z3.BoolVal(False)
+            args = dict(c.st.ghost['$order'])['_compile']
+            f = c.st.fields
+            return z3.And(z3.BoolVal(len(args) == 2), pyvc.eq(args[0], f['pattern_file']), pyvc.eq(args[1], f['pattern_folder_exclude'])) if len(args) == 2 else z3.BoolVal(False)
+        return [('WcMatch.__init__.returns_only_if_patterns_have_the_type_of_root_dir', ('C18',), types_agree),
+                ('WcMatch.__init__.limit_stored_as_given;run_state_initialised;missing_patterns_are_the_empty_pattern_of_the_root_type', ('C11', 'C14', 'C15', 'C18'), state),
+                ('WcMatch.__init__.on_init_runs_before_the_patterns_are_compiled_with_(pattern_file,pattern_folder_exclude)', ('C14',), order)]
+
+    @property
+    def exc_ensures(self):
+        me = self
+        return [('WcMatch.__init__.TypeError_only_for_a_pattern_of_the_other_type', ('C18',),
+                 lambda c: z3.Not(z3.And(z3.Or(me.fp_none, me.fp_bytes == me.root_bytes), z3.Or(me.ep_none, me.ep_bytes == me.root_bytes))))]
+
+
+ALL.append(WcMatchInit())
